@@ -411,7 +411,10 @@ def _ifmin(args, want_min):
     c = core.CTX
 
     def implied(cond):
-        # cheap static pruning: linear relaxation of (path condition and not cond)
+        # cheap static pruning: linear relaxation of (path condition and not cond); opt-in (it costs two relaxations per
+        # comparison and only pays off when most comparisons are decided by numeric bounds, as in C12)
+        if not c.opts.get("prune_minmax"):
+            return False
         try:
             neg = z3.Not(cond)
             return core.relaxation_unsat(c._slice(core.vars_of(neg), 2) + [neg])
